@@ -259,6 +259,119 @@ Theorem targets_agree_on_stacks ws r sc sc' v st :
   linked2 ws r -> w_cls w r = CSet -> NoDup (ws ++ [r]) -> (forall x, In x (ws ++ [r]) -> ~ In x v) -> lookups_total (ws ++ [r]) ->
   map_target w (S (List.length ws)) (hd r ws) sc (v, st) = target w (S (List.length ws)) (hd r ws) sc' (v, st).
 Proof. intros HL Hr HD Hf Ht. rewrite (map_stack2 ws r sc v st HL Hr HD Hf Ht), (cli_stack2 ws r sc' v st HL Hr HD Hf Ht). reflexivity. Qed.
+
+(* ---- stacks that also hold let-bound NAMES (`let cfg = { … }; in cfg`): with non-empty chains both walks give the name its context, read its
+        value and go on there; the chains (and therefore the stores) differ, the set and the nodes entered do not ---- *)
+Definition wrapper3 (t child : N) : Prop :=
+  wrapper2 t child \/ (w_cls w t = CIdent /\ forall st', w_ident_value w t st' = RVal child).
+Fixpoint linked3 (ws : list N) (r : N) : Prop :=
+  match ws with [] => True | x :: rest => wrapper3 x (hd r rest) /\ linked3 rest r end.
+Definition lookups_truthy (l : list N) : Prop := forall x, In x l -> forall st', exists c, w_scopes w x st' = RVal c /\ w_truthy w c = true.
+Definition chain_ok (sc : option (wSC w)) : Prop := match sc with Some c => w_truthy w c = true | None => True end.
+
+Lemma cli_through_ident f t child sc v st :
+  w_cls w t = CIdent -> (forall st', w_ident_value w t st' = RVal child) -> existsb (w_eqb w t) v = false -> chain_ok sc ->
+  (forall st', exists c, w_scopes w t st' = RVal c /\ w_truthy w c = true) ->
+  exists c st1, w_truthy w c = true /\ target w (S f) t sc (v, st) = target w f child (Some c) (t :: v, st1).
+Proof.
+  intros Hc Hval Hv Hok Hlk. destruct (Hlk st) as [c0 [Hs0 Ht0]].
+  unfold target. cbn [resolve_target_set_from_expr]. unfold TargetGen.bind at 1, is_visited at 1. cbn [fst snd]. rewrite Hv.
+  unfold TargetGen.bind at 1, visit at 1. cbn [fst snd]. cbv zeta. unfold TargetGen.bind at 1.
+  destruct sc as [c|].
+  - cbn in Hok. exists c, (w_set_ctx w t c st). split; [exact Hok|].
+    unfold TargetGen.ret. rewrite Hc. unfold resolve_identifier_target, TargetGen.bind, TargetGen.ret, do_set_ctx, get_value. cbn [fst snd]. rewrite Hok. cbn [fst snd]. rewrite Hval. reflexivity.
+  - exists c0, (w_set_ctx w t c0 st). split; [exact Ht0|].
+    unfold TargetGen.bind, get_scopes, TargetGen.ret. cbn [fst snd]. rewrite Hs0. rewrite Hc.
+    unfold resolve_identifier_target, TargetGen.bind, TargetGen.ret, do_set_ctx, get_value. cbn [fst snd]. rewrite Ht0. cbn [fst snd]. rewrite Hval. reflexivity.
+Qed.
+Lemma map_through_ident f t child sc v st :
+  w_cls w t = CIdent -> (forall st', w_ident_value w t st' = RVal child) -> existsb (w_eqb w t) v = false -> chain_ok sc ->
+  (forall st', exists c, w_scopes w t st' = RVal c /\ w_truthy w c = true) ->
+  exists c st1, w_truthy w c = true /\ map_target w (S f) t sc (v, st) = map_target w f child (Some c) (t :: v, st1).
+Proof.
+  intros Hc Hval Hv Hok Hlk. destruct (Hlk st) as [c0 [Hs0 Ht0]].
+  unfold map_target. cbn [resolve_from_expr]. unfold TargetGen.bind at 1, is_visited at 1. cbn [fst snd]. rewrite Hv.
+  unfold TargetGen.bind at 1, visit at 1. cbn [fst snd]. unfold TargetGen.bind at 1.
+  destruct sc as [c|].
+  - cbn in Hok. exists c, (w_set_ctx w t c st). split; [exact Hok|].
+    unfold TargetGen.ret. rewrite Hc. unfold TargetGen.bind, TargetGen.ret, do_set_ctx, get_value. cbn [fst snd]. rewrite Hok. cbn [fst snd]. rewrite Hok. cbn [fst snd]. rewrite Hval. reflexivity.
+  - exists c0, (w_set_ctx w t c0 st). split; [exact Ht0|].
+    unfold get_scopes, TargetGen.ret. cbn [fst snd]. rewrite Hs0. rewrite Hc.
+    unfold TargetGen.bind, TargetGen.ret, do_set_ctx, get_value. cbn [fst snd]. rewrite Ht0. cbn [fst snd]. rewrite Ht0. cbn [fst snd]. rewrite Hval. reflexivity.
+Qed.
+
+Lemma truthy_ok x sc st : (forall st', exists c, w_scopes w x st' = RVal c /\ w_truthy w c = true) -> scopes_okw x sc st.
+Proof. intros H. unfold scopes_ok. destruct sc; [exact I|]. destruct (H st) as [c [Hc _]]. exists c. exact Hc. Qed.
+
+Lemma cli_step f x child sc v st :
+  wrapper3 x child -> existsb (w_eqb w x) v = false -> chain_ok sc -> (forall st', exists c, w_scopes w x st' = RVal c /\ w_truthy w c = true) ->
+  exists sc' st1, chain_ok sc' /\ target w (S f) x sc (v, st) = target w f child sc' (x :: v, st1).
+Proof.
+  intros Hw Hv Hok Hlk. pose proof (truthy_ok x sc st Hlk) as Hk.
+  destruct Hw as [[Hp|[Hc Hb]]|[Hc Hval]].
+  - exists sc, st. split; [exact Hok|]. unfold target.
+    destruct Hp as [[Hc Hb]|[[Hc Hb]|[Hc Hb]]]; [apply (INST through_assert)|apply (INST through_let)|apply (INST through_paren)]; assumption.
+  - destruct (Hlk st) as [c [Hsc Ht]]. exists (Some c), (w_attach w child x st). split; [exact Ht|]. unfold target.
+    rewrite (INST through_with f x child sc v st c Hc Hb Hv Hsc). unfold or_scopes. rewrite Ht. reflexivity.
+  - destruct (cli_through_ident f x child sc v st Hc Hval Hv Hok Hlk) as [c [st1 [Ht E]]]. exists (Some c), st1. split; [exact Ht|exact E].
+Qed.
+Lemma map_step f x child sc v st :
+  wrapper3 x child -> existsb (w_eqb w x) v = false -> chain_ok sc -> (forall st', exists c, w_scopes w x st' = RVal c /\ w_truthy w c = true) ->
+  exists sc' st1, chain_ok sc' /\ map_target w (S f) x sc (v, st) = map_target w f child sc' (x :: v, st1).
+Proof.
+  intros Hw Hv Hok Hlk. pose proof (truthy_ok x sc st Hlk) as Hk. destruct (Hlk st) as [c [Hsc Ht]].
+  destruct Hw as [[Hp|[Hc Hb]]|[Hc Hval]].
+  - exists (chain_after x sc st), st. split; [|apply map_through_plain; assumption].
+    unfold chain_after. destruct sc as [c1|]; [exact Hok|]. rewrite Hsc. exact Ht.
+  - exists (Some c), (w_attach w child x st). split; [exact Ht|].
+    enter_map sc Hv Hk; rewrite Hc; unfold TargetGen.bind, get_scopes, do_attach; cbn [fst snd]; rewrite ?Hsc; rewrite ?Ht; rewrite Hb; try reflexivity.
+  - destruct (map_through_ident f x child sc v st Hc Hval Hv Hok Hlk) as [c1 [st1 [Ht1 E]]]. exists (Some c1), st1. split; [exact Ht1|exact E].
+Qed.
+
+Theorem cli_stack3 ws : forall r sc v st,
+  linked3 ws r -> w_cls w r = CSet -> NoDup (ws ++ [r]) -> (forall x, In x (ws ++ [r]) -> ~ In x v) -> lookups_truthy (ws ++ [r]) -> chain_ok sc ->
+  exists st', target w (S (List.length ws)) (hd r ws) sc (v, st) = (RVal r, (r :: rev ws ++ v, st')).
+Proof.
+  induction ws as [|x rest IH]; intros r sc v st HL Hr HD Hfresh Htot Hok.
+  - exists st. cbn [hd List.length rev app]. unfold target. apply (INST set_is_target); [exact Hr| |apply truthy_ok; apply Htot; left; reflexivity].
+    apply (existsb_false_notin N (w_eqb w) (w_eqb_spec w)), Hfresh. left; reflexivity.
+  - cbn [hd List.length]. destruct HL as [Hw HL].
+    assert (Hv : existsb (w_eqb w x) v = false) by (apply (existsb_false_notin N (w_eqb w) (w_eqb_spec w)), Hfresh; left; reflexivity).
+    inversion HD as [|? ? Hnotin HD']; subst.
+    destruct (cli_step (S (List.length rest)) x (hd r rest) sc v st Hw Hv Hok (Htot x (or_introl eq_refl))) as [sc' [st1 [Hok' E]]]. rewrite E.
+    destruct (IH r sc' (x :: v) st1 HL Hr HD') as [st' E'].
+    + intros y Hy [Hyx|Hyv]; [subst; contradiction|]. apply (Hfresh y); [right; exact Hy|exact Hyv].
+    + intros y Hy. apply Htot. right. exact Hy.
+    + exact Hok'.
+    + exists st'. rewrite E'. cbn [rev]. rewrite <- app_assoc. reflexivity.
+Qed.
+Theorem map_stack3 ws : forall r sc v st,
+  linked3 ws r -> w_cls w r = CSet -> NoDup (ws ++ [r]) -> (forall x, In x (ws ++ [r]) -> ~ In x v) -> lookups_truthy (ws ++ [r]) -> chain_ok sc ->
+  exists st', map_target w (S (List.length ws)) (hd r ws) sc (v, st) = (RVal r, (r :: rev ws ++ v, st')).
+Proof.
+  induction ws as [|x rest IH]; intros r sc v st HL Hr HD Hfresh Htot Hok.
+  - exists st. cbn [hd List.length rev app]. apply map_set_is_target; [exact Hr| |apply truthy_ok; apply Htot; left; reflexivity].
+    apply (existsb_false_notin N (w_eqb w) (w_eqb_spec w)), Hfresh. left; reflexivity.
+  - cbn [hd List.length]. destruct HL as [Hw HL].
+    assert (Hv : existsb (w_eqb w x) v = false) by (apply (existsb_false_notin N (w_eqb w) (w_eqb_spec w)), Hfresh; left; reflexivity).
+    inversion HD as [|? ? Hnotin HD']; subst.
+    destruct (map_step (S (List.length rest)) x (hd r rest) sc v st Hw Hv Hok (Htot x (or_introl eq_refl))) as [sc' [st1 [Hok' E]]]. rewrite E.
+    destruct (IH r sc' (x :: v) st1 HL Hr HD') as [st' E'].
+    + intros y Hy [Hyx|Hyv]; [subst; contradiction|]. apply (Hfresh y); [right; exact Hy|exact Hyv].
+    + intros y Hy. apply Htot. right. exact Hy.
+    + exact Hok'.
+    + exists st'. rewrite E'. cbn [rev]. rewrite <- app_assoc. reflexivity.
+Qed.
+(* through stacks of assert / let / parenthesis / with wrappers AND let-bound names: the same set, the same nodes entered *)
+Theorem targets_agree_through_names ws r sc sc' v st :
+  linked3 ws r -> w_cls w r = CSet -> NoDup (ws ++ [r]) -> (forall x, In x (ws ++ [r]) -> ~ In x v) -> lookups_truthy (ws ++ [r]) -> chain_ok sc -> chain_ok sc' ->
+  let a := map_target w (S (List.length ws)) (hd r ws) sc (v, st) in let b := target w (S (List.length ws)) (hd r ws) sc' (v, st) in
+  fst a = RVal r /\ fst b = RVal r /\ fst (snd a) = fst (snd b).
+Proof.
+  intros HL Hr HD Hf Ht Hok Hok'. cbv zeta.
+  destruct (map_stack3 ws r sc v st HL Hr HD Hf Ht Hok) as [s1 E1]. destruct (cli_stack3 ws r sc' v st HL Hr HD Hf Ht Hok') as [s2 E2].
+  rewrite E1, E2. repeat split.
+Qed.
 End W.
 
 Definition map_table_run (tb : table) (exprs : list nat) : res nat * nat :=
@@ -271,5 +384,13 @@ Print Assumptions targets_agree_on_stacks.
 Example stacks_demo :
   let tb := {| t_cls := [CWith; CLet; CSet]; t_body := [Some 1; None; None]; t_value := [None; Some 2; None]; t_output := []; t_argument := []; t_strip := [0; 1; 2];
                t_supports := []; t_name := []; t_select := []; t_truthy := [false; true]; t_scopes := [(0, 0, RVal 1)]; t_values := [] |} in
+  map_table_run tb [0] = (RVal 2, 1) /\ table_run tb [0] = (RVal 2, 1).
+Proof. vm_compute. split; reflexivity. Qed.
+Print Assumptions targets_agree_through_names.
+(* non-vacuity: `let cfg = { a = 1; }; in cfg` — nodes 0 let, 1 the name, 2 the set it is bound to: both walks give the name a context, read its
+   value and find node 2 *)
+Example names_demo :
+  let tb := {| t_cls := [CLet; CIdent; CSet]; t_body := []; t_value := [Some 1; None; None]; t_output := []; t_argument := []; t_strip := [0; 1; 2];
+               t_supports := []; t_name := []; t_select := []; t_truthy := [false; true]; t_scopes := [(0, 0, RVal 1); (1, 0, RVal 1)]; t_values := [(1, 1, RVal 2)] |} in
   map_table_run tb [0] = (RVal 2, 1) /\ table_run tb [0] = (RVal 2, 1).
 Proof. vm_compute. split; reflexivity. Qed.
